@@ -306,6 +306,10 @@ func (w *submitLog) close() {
 	}
 }
 
+func submitDiscardLogger() *slog.Logger {
+	return slog.New(slog.NewTextHandler(io.Discard, &slog.HandlerOptions{Level: slog.LevelError + 4}))
+}
+
 func submitHex(b []byte) string {
 	if len(b) == 0 {
 		return "-"
